@@ -42,6 +42,12 @@ def cases(tier, seed):
             continue
         for r in range(reps * 2):
             out.append(dict(kind="other", cfg=cfg, family="gen", B=16, s=rnd.randrange(10**6)))
+    # instances of another size than the env's generator makes (size-agnostic envs only)
+    for cfg in envzoo.routing_configs((6,) if tier == "quick" else (6, 10)):
+        if cfg["env"] in envzoo.SIZE_AGNOSTIC and not cfg.get("dense") and (cfg["env"] != "mtvrp" or cfg.get("preset") in ("all", "vrptw", "ovrpbltw", "vrpb")):
+            for n2 in (cfg["n"] + 5, max(3, cfg["n"] - 2)):
+                for r in range(max(1, reps // 2)):
+                    out.append(dict(kind="routing", cfg=cfg, family="gen", B=16, s=rnd.randrange(10**6), inst_n=n2))
     # every fourth case decodes the same instance object twice without cloning it (evaluate a batch, evaluate it again):
     # the monitors watch the second episode
     for i, c_ in enumerate(out):
